@@ -1,25 +1,31 @@
 """C17 - parse and validation failures come back as errors; validation only gates.
 
-Decided clauses (resolved MIR of the top-level function and the diagnostic helpers, all paths):
-  1  the WGSL front end is called on the caller's source text itself (no conversion between the public parameter and
-     parse_str), its success edge dominates every crate-internal call and every validator call, and nothing that can panic
-     runs before that edge or on the error path;
+Decided clauses (resolved MIR, all paths).  The generating entry may be factored into a chain of crate functions
+(public wrapper -> ... -> the function that calls the WGSL front end); every level of the chain is checked:
+  1  the front end is called on the caller's source text itself (at every level the source argument is the level's own parameter,
+     unchanged); at every level the success edge of the branch on the step's result (parse_str, or the call of the next-lower level)
+     dominates every other crate-internal call and every validator call; nothing that can panic runs before that edge or on the
+     error path; the error path only returns the error;
   2  the front end's error reaches the caller as CreateModuleError::ParseError built from that very error value;
-  3  when `validate` is Some, Validator::validate(&module) on the parsed module dominates every generation call on that
-     path; its error is returned as ValidationError built from that error value;
-  4  the validator's Ok value is dropped; the `validate` option is read only to gate the validator (no other branch, no other
-     reader), and the module is never borrowed mutably - so for sources that pass, validation cannot change the output;
+  3  when `validate` is Some, Validator::validate(&module) on the parsed module dominates every generation call on that path (and
+     no generation call runs before the gate); its error is returned as ValidationError built from that error value;
+  4  the validator's Ok value is dropped; the `validate` option (read from WriteOptions, possibly handed down the chain as a
+     parameter) feeds nothing but the single gate in front of the validator; the module is never borrowed mutably - so for sources
+     that pass, validation cannot change the output;
   5  the four diagnostic helpers dispatch ParseError / ValidationError to naga's matching emit_* function with the caller's
      source (sibling agreement on the method name) and contain no panic-capable callee.
 Not decided: panics inside naga's front end, validator or diagnostic renderer (library)."""
 from engine_mir import Mir, op_local, op_place
-from mirutil import cname, method, guards, chain_of, panic_sites, canon, forward_taint, reads_field
+from mirutil import cname, method, guards, chain_of, panic_sites, canon, forward_taint, reads_field, local_from_field, local_is_field_value, place_reads_field
 
 ERR = 'CreateModuleError'
+PLUMBING = ('std::result::Result::<T, E>::map_err', '<std::result::Result<T, E> as std::ops::Try>::branch', '<std::result::Result<T, F> as std::ops::FromResidual',
+            'std::mem::drop', 'std::option::Option::<T>::as_ref', 'std::option::Option::<&T>::copied', 'std::option::Option::<&T>::cloned',
+            '<std::option::Option<T> as std::clone::Clone>::clone', 'std::option::Option::<T>::as_deref', 'std::option::Option::<T>::transpose',
+            'std::result::Result::<T, E>::map', '<std::option::Option<T> as std::ops::Try>::branch', '<std::option::Option<T> as std::ops::FromResidual')
 
 
 def closure_builds(mir, cname_, variant):
-    """closure body returns adt CreateModuleError::<variant> whose operand is its own (non-self) parameter"""
     b = mir.bodies.get(cname_)
     if b is None:
         return False
@@ -33,242 +39,268 @@ def closure_builds(mir, cname_, variant):
     return False
 
 
+def closures_passed(T, names=('map_err', 'or_else', 'map', 'unwrap_or_else', 'inspect_err', 'and_then')):
+    out = set()
+    for bb, t in T.calls():
+        if method(cname(t)) in names:
+            for a in t['args']:
+                l = op_local(a)
+                if l is not None and 'closure' in T.locals[l]:
+                    for _, kind, x in T.defs().get(l, []):
+                        if kind == 'assign' and x['rv']['rk'] == 'aggregate' and x['rv']['agg'].startswith('closure:'):
+                            out.add(x['rv']['agg'][len('closure:'):])
+    return out
+
+
+def result_branch(T, call_t):
+    """block of the switch whose discriminant derives from the result of call_t; returns (switch block, success target, error target)"""
+    for b, blk in enumerate(T.blocks):
+        t = blk['term']
+        if t['k'] == 'switch' and op_local(t['discr']) is not None:
+            neg, calls, places = chain_of(T, op_local(t['discr']))
+            if any(c is call_t for c in calls):
+                succ = [tgt for v, tgt in t['targets'] if v == 0]
+                errt = [tgt for v, tgt in t['targets'] if v == 1]
+                if succ and errt:
+                    return b, succ[0], errt[0]
+    return None
+
+
+def error_built_from(mir, T, call_t, variant, err_region):
+    for bb, t in T.calls():
+        if method(cname(t)) == 'map_err' and (op_local(t['args'][0]) == call_t['dest']['l'] or any(c is call_t for c in chain_of(T, op_local(t['args'][0]))[1])):
+            for a in t['args'][1:]:
+                l = op_local(a)
+                for _, kind, x in T.defs().get(l, []) if l is not None else []:
+                    if kind == 'assign' and x['rv']['rk'] == 'aggregate' and x['rv']['agg'].startswith('closure:'):
+                        if closure_builds(mir, x['rv']['agg'][len('closure:'):], variant):
+                            return True
+    for b in err_region:
+        for s in T.blocks[b]['stmts']:
+            rv = s['rv']
+            if rv['rk'] == 'aggregate' and rv['agg'].endswith(f'{ERR}::{variant}'):
+                sl, calls, _ = T.backward_slice([op_local(o) for o in rv['ops'] if op_local(o) is not None])
+                if any(c is call_t for _, c in calls):
+                    return True
+    return False
+
+
 def run(rep):
     mir = Mir()
     rep.explanation = __doc__
     rep.trusted = ['rustc nightly MIR + Instance resolution', 'naga front end / validator / diagnostics do not panic']
-    tops = [n for n, b in mir.bodies.items() if any(cname(t) == 'naga::front::wgsl::parse_str' for _, t in b.calls())]
-    rep.floor('top-level generating function (calls the WGSL front end)', len(tops), 1)
-    rep.analysed = {'top_level': tops, 'bodies': len(mir.bodies)}
-    for tn in tops:
-        T = mir.bodies[tn]
-        pcalls = [(bb, t) for bb, t in T.calls() if cname(t) == 'naga::front::wgsl::parse_str']
-        rep.check(len(pcalls) == 1, 'C17.1.single-parse', f'parse-once:{tn}', T.where(), f'{len(pcalls)} calls of the front end')
-        bp, pt = pcalls[0]
-        # ---- 1a: source reaches parse_str unchanged -----------------------------------------------------------------
-        root = canon(T, op_place(pt['args'][0])) if op_place(pt['args'][0]) else None
-        src_param = root[0] if root and 1 <= root[0] <= T.arg_count and root[1] in ('', '&', '*') else None
-        rep.check(src_param is not None, 'C17.1.parse-input', f'parse-input:{tn}', T.where(bp),
-                  f'the argument of parse_str is not a parameter of {tn} unchanged (root {root}): the front end then judges a '
-                  f'different text than the caller supplied, so a rejected source can be accepted (or spans shift)',
-                  ok_detail=f'parse_str receives parameter _{src_param} unchanged')
-        # callers hand their own parameter through
-        for cn, cb in sorted(mir.bodies.items()):
-            for bb, t in cb.calls():
-                if cname(t) == tn and src_param is not None:
-                    a = t['args'][src_param - 1]
-                    r = canon(cb, op_place(a)) if op_place(a) else None
-                    ok = r is not None and 1 <= r[0] <= cb.arg_count and r[1] in ('', '&', '*') and 'str' in cb.locals[r[0]]
-                    rep.check(ok, 'C17.1.parse-input', f'parse-input:{cn}', cb.where(bb),
-                              f'{cn} does not pass its own source parameter unchanged to {tn} (root {r})',
-                              ok_detail=f'{cn} forwards parameter _{r[0] if r else "?"} unchanged')
-        # ---- success edge of the parse branch --------------------------------------------------------------------------
-        gs = None
-        for b, blk in enumerate(T.blocks):
-            t = blk['term']
-            if t['k'] == 'switch' and op_local(t['discr']) is not None:
-                neg, calls, places = chain_of(T, op_local(t['discr']))
-                if any(c is pt for c in calls):
-                    gs = b
-                    break
-        if gs is None:
-            rep.bad('C17.1.parse-branch', f'parse-branch:{tn}', T.where(bp), 'no branch on the outcome of parse_str found', undecided=True)
+    P = [n for n, b in mir.bodies.items() if any(cname(t) == 'naga::front::wgsl::parse_str' for _, t in b.calls())]
+    rep.floor('function calling the WGSL front end', len(P), 1)
+    if len(P) != 1:
+        rep.check(len(P) == 1, 'C17.1.single-parse', 'parse-once', '', f'{len(P)} functions call the front end', ok_detail='one')
+        if not P:
+            return
+    # ---- the chain of levels: [ (body, step call terminator, index of the source argument in the step call) ] ------------------------------
+    levels = []
+    pbody = mir.bodies[P[0]]
+    pcalls = [(bb, t) for bb, t in pbody.calls() if cname(t) == 'naga::front::wgsl::parse_str']
+    rep.check(len(pcalls) == 1, 'C17.1.single-parse', f'parse-once:{P[0]}', pbody.where(), f'{len(pcalls)} calls of the front end', ok_detail='one call')
+    levels.append((pbody, pcalls[0][0], pcalls[0][1], 0))
+    seen = {P[0]}
+    frontier = [P[0]]
+    while frontier:
+        nxt = []
+        for fn in frontier:
+            for cn, cb in sorted(mir.bodies.items()):
+                if cb.kind == 'Closure' or cn in seen:
+                    continue
+                sites = [(bb, t) for bb, t in cb.calls() if cname(t) == fn]
+                if sites:
+                    seen.add(cn)
+                    nxt.append(cn)
+                    for bb, t in sites:
+                        levels.append((cb, bb, t, None))
+        frontier = nxt
+    chain_fns = {lv[0].name for lv in levels}
+    rep.analysed = {'chain': [lv[0].name for lv in levels], 'bodies': len(mir.bodies)}
+    # source parameter index per chain function (1-based local), filled bottom-up
+    src_param = {}
+    n_gen = 0
+    validator_levels = []
+    for T, bs, st_, _ in levels:
+        tn = T.name
+        callee = cname(st_)
+        # ---- 1a: the source text reaches the step unchanged -----------------------------------------------------------------------
+        if callee == 'naga::front::wgsl::parse_str':
+            arg = st_['args'][0]
+        else:
+            idx = src_param.get(callee)
+            arg = st_['args'][idx - 1] if idx is not None and idx - 1 < len(st_['args']) else None
+        root = canon(T, op_place(arg)) if arg is not None and op_place(arg) else None
+        sp = root[0] if root and 1 <= root[0] <= T.arg_count and root[1] in ('', '&', '*') and 'str' in T.locals[root[0]] else None
+        if sp is not None and tn not in src_param:
+            src_param[tn] = sp
+        rep.check(sp is not None, 'C17.1.parse-input', f'parse-input:{tn}', T.where(bs),
+                  f'{tn} does not hand its own source parameter unchanged to {callee} (root {root}): the front end then judges a different text than the caller supplied, so a rejected source '
+                  f'can be accepted (or diagnostics shift)', ok_detail=f'{tn} forwards parameter _{sp} unchanged to {callee.split("::")[-1]}')
+        # ---- branch on the step result -------------------------------------------------------------------------------------------------
+        rb = result_branch(T, st_)
+        others = [(bb, t) for bb, t in T.calls() if (cname(t) in mir.bodies and cname(t) not in closures_passed(T) and t is not st_) or cname(t).startswith('naga::valid::Validator')]
+        if rb is None:
+            # tail position: the result of the step is returned as is; nothing else may happen at this level
+            direct = st_['dest']['l'] == 0 or any(x['rv']['rk'] == 'use' and op_local(x['rv']['ops'][0]) == st_['dest']['l'] and x['lhs']['l'] == 0
+                                                   for blk in T.blocks for x in blk['stmts'])
+            rep.check(direct and not others, 'C17.1.parse-dominates', f'tail-call:{tn}', T.where(bs),
+                      f'{tn} neither branches on the result of {callee} nor returns it unchanged (other calls: {[cname(t) for _, t in others][:3]})',
+                      ok_detail=f'returns the result of {callee.split("::")[-1]} unchanged')
             continue
-        st = T.blocks[gs]['term']
-        succ = [tgt for v, tgt in st['targets'] if v == 0]
-        errt = [tgt for v, tgt in st['targets'] if v == 1]
-        if not succ or not errt:
-            rep.bad('C17.1.parse-branch', f'parse-branch:{tn}', T.where(gs), f'unexpected shape of the branch on the parse result {st["targets"]}', undecided=True)
-            continue
-        succ, errt = succ[0], errt[0]
+        gs, succ, errt = rb
         dom = T.dominators()
         after = {b for b in range(T.n) if succ in dom[b]}
-        normal = T.reachable_from([0])
-        before = normal - after
-        map_err_closures = set()
-        for bb, t in T.calls():
-            if method(cname(t)) in ('map_err', 'or_else', 'map', 'unwrap_or_else', 'inspect_err'):
-                for a in t['args']:
-                    l = op_local(a)
-                    if l is not None and 'closure' in T.locals[l]:
-                        for _, kind, x in T.defs().get(l, []):
-                            if kind == 'assign' and x['rv']['rk'] == 'aggregate' and x['rv']['agg'].startswith('closure:'):
-                                map_err_closures.add(x['rv']['agg'][len('closure:'):])
-        n_dom = 0
-        for bb, t in T.calls():
-            c = cname(t)
-            internal = c in mir.bodies and c not in map_err_closures
-            validator = c.startswith('naga::valid::Validator')
-            if internal or validator:
-                n_dom += 1
-                rep.check(bb in after, 'C17.1.parse-dominates', f'after-parse:{c}', T.where(bb),
-                          f'{c} is called on a path on which the source has not (successfully) been parsed yet',
-                          ok_detail='dominated by the success edge of the parse branch')
-        rep.floor('crate-internal/validator calls in the top-level function', n_dom, 10)
+        before = T.reachable_from([0]) - after
+        for bb, t in others:
+            n_gen += 1
+            rep.check(bb in after, 'C17.1.parse-dominates', f'after-parse:{cname(t)}', T.where(bb),
+                      f'{cname(t)} is called on a path on which the source has not (successfully) been parsed/validated yet', ok_detail='dominated by the success edge of the step')
         ps = [(bb, why, what) for bb, why, what in panic_sites(T) if bb in before]
         for bb, why, what in ps:
-            rep.bad('C17.1.no-panic-before-parse', f'panic-before-parse:{what}', T.where(bb),
-                    f'{what} can panic before the parse result is known / on the parse-error path: {why}')
+            rep.bad('C17.1.no-panic-before-parse', f'panic-before-parse:{what}', T.where(bb), f'{what} can panic before the parse result is known / on the error path: {why}')
         if not ps:
-            rep.ok('C17.1.no-panic-before-parse', 'panic-free-prefix', T.where(bp), f'{len(before)} blocks before the success edge and on the error path, none panic-capable')
-        # ---- 2: ParseError built from the front end's error ------------------------------------------------------------
-        built = False
-        for bb, t in T.calls():
-            if method(cname(t)) == 'map_err' and op_local(t['args'][0]) == pt['dest']['l'] or \
-                    (method(cname(t)) == 'map_err' and any(c is pt for c in chain_of(T, op_local(t['args'][0]))[1])):
-                for a in t['args'][1:]:
-                    l = op_local(a)
-                    for _, kind, x in T.defs().get(l, []) if l is not None else []:
-                        if kind == 'assign' and x['rv']['rk'] == 'aggregate' and x['rv']['agg'].startswith('closure:'):
-                            if closure_builds(mir, x['rv']['agg'][len('closure:'):], 'ParseError'):
-                                built = True
-        if not built:
-            # match form: aggregate in the error region with an operand derived from the parse result
-            err_region = T.reachable_from([errt]) - after
-            for b in err_region:
-                for s in T.blocks[b]['stmts']:
-                    rv = s['rv']
-                    if rv['rk'] == 'aggregate' and rv['agg'].endswith(f'{ERR}::ParseError'):
-                        sl, calls, _ = T.backward_slice([op_local(o) for o in rv['ops'] if op_local(o) is not None])
-                        if any(c is pt for _, c in calls):
-                            built = True
-        rep.check(built, 'C17.2.parse-error-value', f'parse-error:{tn}', T.where(bp),
-                  'the error of parse_str is not turned into CreateModuleError::ParseError carrying that very error value',
-                  ok_detail='Err edge returns ParseError { error } built from the front end\'s error')
+            rep.ok('C17.1.no-panic-before-parse', f'panic-free-prefix:{tn}', T.where(bs), f'{len(before)} blocks before the success edge and on the error path, none panic-capable')
         err_region = T.reachable_from([errt]) - after
         other = []
         for b in sorted(err_region):
             for s in T.blocks[b]['stmts']:
                 rv = s['rv']
-                if rv['rk'] == 'aggregate' and (rv['agg'].startswith('adt:std::result::Result::Ok') or
-                                                 (ERR + '::') in rv['agg'] and not rv['agg'].endswith('ParseError')):
+                if rv['rk'] == 'aggregate' and (rv['agg'].startswith('adt:std::result::Result::Ok') or ((ERR + '::') in rv['agg'] and not rv['agg'].endswith('ParseError'))):
                     other.append(rv['agg'])
             t = T.blocks[b]['term']
             if t['k'] == 'call' and not cname(t).startswith(('<std::result::Result<T, F> as std::ops::FromResidual', 'std::mem::drop')):
                 other.append(cname(t))
-        rep.check(not other, 'C17.2.parse-error-path', f'parse-error-path:{tn}', T.where(errt),
-                  f'the parse-error path does more than return the error: {other[:4]}', ok_detail='error path only returns the residual')
-        # ---- 3/4: validation ---------------------------------------------------------------------------------------------
-        vcalls = [(bb, t) for bb, t in T.calls() if cname(t) == 'naga::valid::Validator::validate']
-        rep.check(len(vcalls) == 1, 'C17.3.validator-call', f'validate-once:{tn}', T.where(), f'{len(vcalls)} calls of Validator::validate', ok_detail='one call')
-        vsw = []
+        rep.check(not other, 'C17.2.parse-error-path', f'parse-error-path:{tn}', T.where(errt), f'the error path of {callee} does more than return the error: {other[:4]}',
+                  ok_detail='error path only returns the residual')
+        if callee == 'naga::front::wgsl::parse_str':
+            rep.check(error_built_from(mir, T, st_, 'ParseError', err_region), 'C17.2.parse-error-value', f'parse-error:{tn}', T.where(bs),
+                      'the error of parse_str is not turned into CreateModuleError::ParseError carrying that very error value', ok_detail='Err edge returns ParseError { error } built from the front end\'s error')
+        if any(cname(t) == 'naga::valid::Validator::validate' for _, t in T.calls()):
+            validator_levels.append((T, bs, st_, gs, succ))
+    rep.floor('crate-internal/validator calls dominated by a successful parse', n_gen, 10)
+    # ---- 3/4: validation -----------------------------------------------------------------------------------------------------------------
+    rep.check(len(validator_levels) == 1, 'C17.3.validator-call', 'validate-once', '', f'Validator::validate is called in {len(validator_levels)} functions of the generating chain', ok_detail='one function validates')
+    gates = []
+    for lv in levels:
+        T = lv[0]
+        if T.name in [g[0].name for g in gates]:
+            continue
         for b, blk in enumerate(T.blocks):
             t = blk['term']
-            if t['k'] == 'switch':
-                dl = op_local(t['discr'])
-                neg, calls, places = chain_of(T, dl) if dl is not None else (False, [], [])
-                dp = op_place(t['discr'])
-                if dp:
-                    places = [canon(T, dp)] + places
-                if any('.validate' in p[1] for p in places if p):
-                    vsw.append(b)
-        rep.check(len(vsw) == 1, 'C17.4.validate-gate-only', f'validate-branches:{tn}', T.where(),
-                  f'{len(vsw)} branches on WriteOptions.validate in {tn} (blocks {vsw}); exactly one (the gate in front of the validator) '
-                  f'is expected: any other branch makes the generated output depend on whether validation is enabled',
-                  ok_detail='exactly one branch reads options.validate')
-        if vcalls and vsw:
-            vb, vt = vcalls[0]
-            sw = vsw[0]
-            st2 = T.blocks[sw]['term']
-            edges = [(v, tgt) for v, tgt in st2['targets']] + [(None, st2['otherwise'])]
-            reach = {v: T.reachable_from([tgt], avoid={sw}) for v, tgt in edges}
-            with_v = [v for v, tgt in edges if vb in reach[v]]
-            without_v = [v for v, tgt in edges if vb not in reach[v]]
-            rep.check(len(with_v) == 1 and len(without_v) == 1, 'C17.3.validator-gated', f'validate-gated:{tn}', T.where(sw),
-                      'Validator::validate is not on exactly one arm of the branch on options.validate', ok_detail='validator on the Some arm only')
-            if len(with_v) == 1 and len(without_v) == 1:
-                some_r, none_r = reach[with_v[0]], reach[without_v[0]]
-                only_some, only_none = some_r - none_r, none_r - some_r
-                # success edge of the validate branch
-                vs = None
-                for b in sorted(only_some):
-                    t = T.blocks[b]['term']
-                    if t['k'] == 'switch' and op_local(t['discr']) is not None and any(c is vt for c in chain_of(T, op_local(t['discr']))[1]):
-                        vs = b
-                if vs is None:
-                    rep.bad('C17.3.validate-branch', f'validate-branch:{tn}', T.where(vb), 'no branch on the outcome of Validator::validate', undecided=True)
-                else:
-                    vt_s = [tgt for v, tgt in T.blocks[vs]['term']['targets'] if v == 0]
-                    vt_e = [tgt for v, tgt in T.blocks[vs]['term']['targets'] if v == 1]
-                    some_tgt = [tgt for v, tgt in edges if v == with_v[0]][0]
-                    unguarded = T.reachable_from([some_tgt], avoid=set(vt_s) | {sw})
-                    bad_calls = [cname(t) for b, t in T.calls() if b in unguarded and cname(t) in mir.bodies and cname(t) not in map_err_closures]
-                    # ... and none may run before the gate at all (its error would pre-empt the validation error)
-                    bad_calls += [cname(t) + ' (before the validation gate)' for b, t in T.calls()
-                                  if cname(t) in mir.bodies and cname(t) not in map_err_closures and sw not in dom[b]]
-                    rep.check(not bad_calls, 'C17.3.validate-dominates', f'validate-dominates:{tn}', T.where(vb),
-                              f'with validation enabled these generation calls can run without the validator having accepted the module: {bad_calls[:5]}',
-                              ok_detail='on the Some arm every generation call is behind the validator\'s success edge')
-                    # validator sees the parsed module
-                    mroot = canon(T, op_place(vt['args'][1])) if len(vt['args']) > 1 and op_place(vt['args'][1]) else None
-                    gen_roots = set()
-                    for b, t in T.calls():
-                        if cname(t) in mir.bodies and cname(t) not in map_err_closures:
-                            for a in t['args']:
-                                if op_place(a) and 'naga::Module' in T.locals[op_local(a)]:
-                                    gen_roots.add(canon(T, op_place(a)))
-                    rep.check(mroot is not None and gen_roots and all(r[0] == mroot[0] for r in gen_roots), 'C17.3.same-module', f'same-module:{tn}', T.where(vb),
-                              f'the validator receives {mroot} but generation uses {sorted(gen_roots)}', ok_detail=f'validator and generation use module local _{mroot[0] if mroot else "?"}')
-                    # ValidationError built from the validator error
-                    vbuilt = False
-                    for bb, t in T.calls():
-                        if method(cname(t)) == 'map_err' and op_local(t['args'][0]) == vt['dest']['l']:
-                            for a in t['args'][1:]:
-                                l = op_local(a)
-                                for _, kind, x in T.defs().get(l, []) if l is not None else []:
-                                    if kind == 'assign' and x['rv']['rk'] == 'aggregate' and x['rv']['agg'].startswith('closure:'):
-                                        if closure_builds(mir, x['rv']['agg'][len('closure:'):], 'ValidationError'):
-                                            vbuilt = True
-                    if not vbuilt and vt_e:
-                        er = T.reachable_from(vt_e, avoid={vs})
-                        for b in er:
-                            for s in T.blocks[b]['stmts']:
-                                rv = s['rv']
-                                if rv['rk'] == 'aggregate' and rv['agg'].endswith(f'{ERR}::ValidationError'):
-                                    sl, calls, _ = T.backward_slice([op_local(o) for o in rv['ops'] if op_local(o) is not None])
-                                    if any(c is vt for _, c in calls):
-                                        vbuilt = True
-                    rep.check(vbuilt, 'C17.3.validation-error-value', f'validation-error:{tn}', T.where(vb),
-                              'the validator\'s error is not returned as CreateModuleError::ValidationError carrying that very error value',
-                              ok_detail='Err edge returns ValidationError { error } built from the validator\'s error')
-                # arms contain only validator plumbing
-                allowed = ('naga::valid::', 'std::result::Result::<T, E>::map_err', '<std::result::Result<T, E> as std::ops::Try>::branch',
-                           '<std::result::Result<T, F> as std::ops::FromResidual', 'std::mem::drop', 'std::option::Option::<T>::as_ref')
-                extra = [cname(t) for b, t in T.calls() if b in (only_some | only_none) and not cname(t).startswith(allowed)]
-                rep.check(not extra, 'C17.4.validate-gate-only', f'validate-arms:{tn}', T.where(sw),
-                          f'the arms of the branch on options.validate call {extra[:5]}: something other than the validator depends on the option',
-                          ok_detail='arms of the validate branch contain only validator plumbing')
-            # Ok value of the validator dropped
-            def through(t):
-                return method(cname(t)) in ('map_err', 'branch', 'ok', 'is_ok', 'is_err', 'err', 'from_residual', 'map', 'as_ref')
-            tainted, consumers = forward_taint(T, [vt['dest']['l']], through)
-            leaks = [cname(t) for b, t in consumers if not through(t) and cname(t) != 'std::mem::drop']
-            rep.check(not leaks, 'C17.4.module-info-dropped', f'module-info:{tn}', T.where(vb),
-                      f'the value returned by Validator::validate flows into {leaks[:4]}: generation then uses the validator\'s analysis, so '
-                      f'enabling validation can change the output',
-                      ok_detail='the validator result only feeds the error branch and is dropped')
-        # other readers of the option
-        readers = []
-        for n2, b2 in sorted(mir.bodies.items()):
-            if n2.startswith('<') and ' as ' in n2:
-                continue  # derived trait impls of the option structs
-            r = reads_field(b2, 'WriteOptions', 'validate')
-            if r and n2 != tn:
-                readers.append(n2)
-        rep.check(not readers, 'C17.4.validate-gate-only', 'validate-readers', T.where(),
-                  f'WriteOptions.validate is also read in {readers}: only the top-level gate may depend on it',
-                  ok_detail=f'only {tn} reads WriteOptions.validate')
-        # module never mutably borrowed
-        mod_locals = [i for i, ty in enumerate(T.locals) if ty == 'naga::Module']
-        mut = []
+            if t['k'] != 'switch':
+                continue
+            dl = op_local(t['discr'])
+            dp = op_place(t['discr'])
+            if (dp and place_reads_field(dp, 'WriteOptions', 'validate')) or (dl is not None and local_is_field_value(mir, T, dl, 'WriteOptions', 'validate')):
+                if not is_drop_flag_switch(T, b):
+                    gates.append((T, b))
+    rep.check(len(gates) == 1, 'C17.4.validate-gate-only', 'validate-branches', '',
+              f'{len(gates)} branches depend on WriteOptions.validate ({[(g[0].name, g[1]) for g in gates]}); exactly one (the gate in front of the validator) is expected: any other branch makes the '
+              f'generated output depend on whether validation is enabled', ok_detail='exactly one branch depends on options.validate')
+    for T, bs, st_, gs, succ in validator_levels:
+        tn = T.name
+        vb, vt = [(bb, t) for bb, t in T.calls() if cname(t) == 'naga::valid::Validator::validate'][0]
+        my_gates = [g for g in gates if g[0] is T]
+        if not my_gates:
+            rep.bad('C17.3.validator-gated', f'validate-gated:{tn}', T.where(vb), 'Validator::validate is not behind the branch on options.validate in the same function')
+            continue
+        sw = my_gates[0][1]
+        st2 = T.blocks[sw]['term']
+        edges = [(v, tgt) for v, tgt in st2['targets']] + [(None, st2['otherwise'])]
+        reach = {v: T.reachable_from([tgt], avoid={sw}) for v, tgt in edges}
+        with_v = [v for v, tgt in edges if vb in reach[v]]
+        without_v = [v for v, tgt in edges if vb not in reach[v]]
+        rep.check(len(with_v) == 1 and len(without_v) == 1, 'C17.3.validator-gated', f'validate-gated:{tn}', T.where(sw),
+                  'Validator::validate is not on exactly one arm of the branch on options.validate', ok_detail='validator on the Some arm only')
+        if len(with_v) != 1 or len(without_v) != 1:
+            continue
+        some_r, none_r = reach[with_v[0]], reach[without_v[0]]
+        only_some, only_none = some_r - none_r, none_r - some_r
+        vrb = result_branch(T, vt)
+        dom = T.dominators()
+        cl = closures_passed(T)
+        gen = [(b, t) for b, t in T.calls() if cname(t) in mir.bodies and cname(t) not in cl and t is not st_]
+        if vrb is None:
+            rep.bad('C17.3.validate-branch', f'validate-branch:{tn}', T.where(vb), 'no branch on the outcome of Validator::validate', undecided=True)
+        else:
+            vs, vsucc, verr = vrb
+            some_tgt = [tgt for v, tgt in edges if v == with_v[0]][0]
+            unguarded = T.reachable_from([some_tgt], avoid={vsucc, sw})
+            bad_calls = [cname(t) for b, t in gen if b in unguarded]
+            bad_calls += [cname(t) + ' (before the validation gate)' for b, t in gen if sw not in dom[b]]
+            rep.check(not bad_calls, 'C17.3.validate-dominates', f'validate-dominates:{tn}', T.where(vb),
+                      f'with validation enabled these generation calls can run without the validator having accepted the module (or before the gate, pre-empting its error): {bad_calls[:5]}',
+                      ok_detail='every generation call of this level is behind the gate and, on the Some arm, behind the validator\'s success edge')
+            er = T.reachable_from([verr], avoid={vs})
+            rep.check(error_built_from(mir, T, vt, 'ValidationError', er), 'C17.3.validation-error-value', f'validation-error:{tn}', T.where(vb),
+                      'the validator\'s error is not returned as CreateModuleError::ValidationError carrying that very error value', ok_detail='Err edge returns ValidationError { error } built from the validator\'s error')
+        # validator sees the module that is generated from / returned
+        mod_locals = {i for i, ty in enumerate(T.locals) if ty == 'naga::Module'}
+        al = op_local(vt['args'][1]) if len(vt['args']) > 1 else None
+        sl_v = T.backward_slice([al], through_calls=False)[0] if al is not None else set()
+        step_dest = st_['dest']['l']
+        from_step = lambda l: step_dest in T.backward_slice([l], through_calls=True)[0]
+        okm = bool(sl_v & mod_locals) and all(from_step(m_) for m_ in mod_locals)
+        rep.check(okm, 'C17.3.same-module', f'same-module:{tn}', T.where(vb),
+                  f'the validator is not applied to the module produced by the parse step (module locals {sorted(mod_locals)})', ok_detail='validator checks the parsed module')
+        extra = [cname(t) for b, t in T.calls() if b in (only_some | only_none) and not cname(t).startswith(PLUMBING + ('naga::valid::',))]
+        rep.check(not extra, 'C17.4.validate-gate-only', f'validate-arms:{tn}', T.where(sw),
+                  f'the arms of the branch on options.validate call {extra[:5]}: something other than the validator depends on the option', ok_detail='arms of the validate branch contain only validator plumbing')
+
+        def through(t):
+            return method(cname(t)) in ('map_err', 'branch', 'ok', 'is_ok', 'is_err', 'err', 'from_residual', 'map', 'as_ref', 'transpose')
+        tainted, consumers = forward_taint(T, [vt['dest']['l']], through)
+        leaks = [cname(t) for b, t in consumers if not through(t) and cname(t) != 'std::mem::drop']
+        # the tainted value must not be returned either (only errors are)
+        rep.check(not leaks, 'C17.4.module-info-dropped', f'module-info:{tn}', T.where(vb),
+                  f'the value returned by Validator::validate flows into {leaks[:4]}: generation then uses the validator\'s analysis, so enabling validation can change the output',
+                  ok_detail='the validator result only feeds the error branch and is dropped')
+    # readers of the option: only chain functions (and derived impls); the value feeds only the gate / the validator's capabilities
+    readers = []
+    for n2, b2 in sorted(mir.bodies.items()):
+        if n2.startswith('<') and ' as ' in n2:
+            continue
+        if reads_field(b2, 'WriteOptions', 'validate') and n2 not in chain_fns:
+            readers.append(n2)
+    rep.check(not readers, 'C17.4.validate-gate-only', 'validate-readers', '',
+              f'WriteOptions.validate is also read in {readers}, outside the generating chain: only the gate may depend on it', ok_detail='only the generating chain reads WriteOptions.validate')
+    for lv in levels:
+        T = lv[0]
+        rd = reads_field(T, 'WriteOptions', 'validate')
+        if not rd:
+            continue
+        starts = set()
         for b, blk in enumerate(T.blocks):
             for s in blk['stmts']:
-                rv = s['rv']
-                if rv['rk'] == 'ref' and rv['mut'] and rv['place']['l'] in mod_locals:
-                    mut.append(b)
-        rep.check(not mut, 'C17.4.module-immutable', f'module-immutable:{tn}', T.where(mut[0] if mut else None),
-                  'the parsed module is borrowed mutably: validation or a later step could alter what generation sees',
-                  ok_detail='the module is only borrowed immutably')
+                if any(place_reads_field(p, 'WriteOptions', 'validate') for p in T.rvalue_places(s['rv'])):
+                    starts.add(s['lhs']['l'])
+            t = blk['term']
+            if t['k'] == 'call' and any(op_place(a) and place_reads_field(op_place(a), 'WriteOptions', 'validate') for a in t['args']):
+                starts.add(t['dest']['l'])
+
+        def thr(t):
+            c = cname(t)
+            return c.startswith(PLUMBING) or method(c) in ('as_ref', 'copied', 'cloned', 'clone', 'is_some', 'is_none', 'as_deref')
+        tainted, consumers = forward_taint(T, list(starts), thr)
+        bad = []
+        for b, t in consumers:
+            c = cname(t)
+            if thr(t) or c.startswith('naga::valid::') or c in chain_fns or c.startswith(('std::mem::drop',)):
+                continue
+            if c in closures_passed(T):
+                continue
+            bad.append(c)
+        rep.check(not bad, 'C17.4.validate-gate-only', f'validate-flow:{T.name}', T.where(),
+                  f'the value of options.validate flows into {bad[:4]} in {T.name}: something other than the validation gate depends on the option', ok_detail='options.validate only feeds the gate')
+    for lv in levels:
+        T = lv[0]
+        mod_locals = [i for i, ty in enumerate(T.locals) if ty == 'naga::Module']
+        mut = [b for b, blk in enumerate(T.blocks) for s in blk['stmts'] if s['rv']['rk'] == 'ref' and s['rv']['mut'] and s['rv']['place']['l'] in mod_locals]
+        if mod_locals:
+            rep.check(not mut, 'C17.4.module-immutable', f'module-immutable:{T.name}', T.where(mut[0] if mut else None),
+                      'the parsed module is borrowed mutably: validation or a later step could alter what generation sees', ok_detail='the module is only borrowed immutably')
     # ---- 5: diagnostic helpers ------------------------------------------------------------------------------------------
     helpers = [n for n, b in mir.bodies.items() if b.kind == 'AssocFn' and b.j['pub'] and n.startswith(ERR + '::')]
     rep.floor('public diagnostic helpers on the error type', len(helpers), 4)
@@ -278,14 +310,11 @@ def run(rep):
         pe = [(bb, t) for bb, t in H.calls() if cname(t).startswith('naga::front::wgsl::ParseError::emit_')]
         ve = [(bb, t) for bb, t in H.calls() if cname(t).startswith('naga::WithSpan::<E>::emit_')]
         rep.check(len(pe) == 1 and method(cname(pe[0][1])) == my, 'C17.5.dispatch', f'dispatch-parse:{hn}', H.where(),
-                  f'{hn} must forward ParseError to naga ParseError::{my}; found {[cname(t) for _, t in pe]}',
-                  ok_detail=f'ParseError -> {cname(pe[0][1]) if pe else ""}')
+                  f'{hn} must forward ParseError to naga ParseError::{my}; found {[cname(t) for _, t in pe]}', ok_detail=f'ParseError -> {cname(pe[0][1]) if pe else ""}')
         rep.check(len(ve) == 1 and method(cname(ve[0][1])) == my, 'C17.5.dispatch', f'dispatch-validation:{hn}', H.where(),
-                  f'{hn} must forward ValidationError to naga WithSpan::{my}; found {[cname(t) for _, t in ve]}',
-                  ok_detail=f'ValidationError -> {cname(ve[0][1]) if ve else ""}')
+                  f'{hn} must forward ValidationError to naga WithSpan::{my}; found {[cname(t) for _, t in ve]}', ok_detail=f'ValidationError -> {cname(ve[0][1]) if ve else ""}')
         for label, lst, variant in (('parse', pe, 'ParseError'), ('validation', ve, 'ValidationError')):
             for bb, t in lst:
-                # source argument is the helper's own source parameter; receiver comes from the matching variant
                 a = t['args'][1] if len(t['args']) > 1 else None
                 r = canon(H, op_place(a)) if a and op_place(a) else None
                 rep.check(r is not None and r[0] == 2 and r[1] in ('', '&', '*'), 'C17.5.source-arg', f'source-arg-{label}:{hn}', H.where(bb),
@@ -293,10 +322,16 @@ def run(rep):
                 rr = canon(H, op_place(t['args'][0])) if op_place(t['args'][0]) else None
                 rep.check(rr is not None and ('@' + variant) in rr[1], 'C17.5.variant', f'variant-{label}:{hn}', H.where(bb),
                           f'{cname(t)} is applied to {rr}, not to the error held by variant {variant}', ok_detail=f'receiver is the payload of {variant}')
-                gl = guards(H, bb)
-                rep.check(any(True for g in gl), 'C17.5.variant', f'variant-guard-{label}:{hn}', H.where(bb), 'call not under the match on self', ok_detail='inside the match on self')
+                rep.check(bool(guards(H, bb)), 'C17.5.variant', f'variant-guard-{label}:{hn}', H.where(bb), 'call not under the match on self', ok_detail='inside the match on self')
         sites = panic_sites(H)
         for bb, why, what in sites:
             rep.bad('C17.5.no-panic', f'panic:{hn}:{what}', H.where(bb), f'{what} in diagnostic helper {hn}: {why}')
         if not sites:
             rep.ok('C17.5.no-panic', f'panic-free:{hn}', H.where(), 'no panic-capable callee')
+
+
+def is_drop_flag_switch(T, b):
+    t = T.blocks[b]['term']
+    l = op_local(t['discr'])
+    return l is not None and T.locals[l] == 'bool' and bool(T.defs().get(l)) and all(
+        kind == 'assign' and x['rv']['rk'] == 'use' and 'const' in x['rv']['ops'][0] for _, kind, x in T.defs().get(l, []))
